@@ -2,6 +2,7 @@ package main
 
 import (
 	"fmt"
+	"strings"
 
 	"github.com/tormoder/fit"
 )
@@ -21,7 +22,7 @@ func (p *propC18) ID() string     { return "C18" }
 func (p *propC18) Engine() string { return "rx" }
 func (p *propC18) Level() string  { return "exploration" }
 func (p *propC18) Rule() string {
-	return "scenario = a model-built stream of record / lap / session / segment_lap / event messages in a container that holds them (activity, course, activity summary, segment) whose component sources carry seeded patterns (0, 1, high bit, all-ones minus one, invalid, random); sequences of 2-100 accumulated sources (compressed_speed_distance, cycles, compressed_accumulated_power) with increments that cross their 12/8/16-bit wrap; events of the three component-bearing kinds and others; both byte orders; every second scenario decodes the same stream twice in one process (history class 'again'), every fourth decodes a chain of two component files with DecodeChained. " +
+	return "scenario = a model-built stream of record / lap / session / segment_lap / event messages in a container that holds them (activity, course, activity summary, segment) whose component sources carry seeded patterns (0, 1, high bit, all-ones minus one, invalid, random); sequences of 2-100 accumulated sources (compressed_speed_distance, cycles, compressed_accumulated_power) with increments that cross their 12/8/16-bit wrap; events of the three component-bearing kinds and others; both byte orders; every second scenario decodes the same stream twice in one process (history class 'again'), every fourth decodes a chain of two component files with DecodeChained; one scenario in 32 is evaluated in a fresh OS process (the decode is that process's first call), where a running total that does not start from zero cannot be the listed package-level-accumulator finding. " +
 		"key = (container, message, source field, pattern class, history class); non-trivial when a source was valid"
 }
 func (p *propC18) Assumptions() []string {
@@ -32,7 +33,7 @@ func (p *propC18) Assumptions() []string {
 	}
 }
 func (p *propC18) ProbeNames() []string {
-	return []string{"12-bit wrap", "8-bit wrap", "16-bit wrap", "invalid source", "event sport_point", "event gear change", "event other kind", "same stream twice", "chain of two component files", "segment file segment_lap", "course lap", "same records under two file types"}
+	return []string{"12-bit wrap", "8-bit wrap", "16-bit wrap", "invalid source", "event sport_point", "event gear change", "event other kind", "same stream twice", "chain of two component files", "segment file segment_lap", "course lap", "same records under two file types", "first decode of a fresh process"}
 }
 
 func (p *propC18) Prepare(seed uint64, tier string) int {
@@ -120,6 +121,29 @@ func genComponentStream(r *Rng, ft byte, focus uint16) *RecStream {
 			}
 			if len(d.Fields) == 0 {
 				d.Fields = [][3]int{{fnum(gl, "CompressedSpeedDistance"), 3, 0x0D}}
+			}
+			if r.Chance(1, 4) {
+				// first a few records that transmit the running totals themselves and no
+				// source for them: they say nothing about the sums expanded later
+				el := byte((int(local) + 1 + r.Intn(15)) % 16)
+				ed := &DefOp{Local: el, Arch: g.arch(), Global: gl}
+				for _, n := range []string{"Distance", "TotalCycles", "AccumulatedPower"} {
+					if r.Chance(2, 3) {
+						ed.Fields = append(ed.Fields, [3]int{fnum(gl, n), 4, 0x86})
+					}
+				}
+				if len(ed.Fields) > 0 {
+					g.emitDef(ed)
+					for k := r.Range(1, 3); k > 0; k-- {
+						var pl []byte
+						for range ed.Fields {
+							b := make([]byte, 4)
+							putN(b, ed.be(), uint64(r.Intn(2000000)))
+							pl = append(pl, b...)
+						}
+						g.emitData(el, false, 0, pl)
+					}
+				}
 			}
 			if r.Bool() {
 				perm := r.Perm(len(d.Fields))
@@ -289,6 +313,12 @@ func (p *propC18) Gen(idx int) *Scenario {
 		sc.Family = "chain"
 		sc.Media = []Medium{{ID: "f0", Records: rs}, {ID: "f1", Records: rs2}, {ID: "m0", Chain: []string{"f0", "f1"}}}
 		sc.Tasks = []Task{{ID: 0, Call: "DecodeChained", In: "m0", Read: plan}}
+	case idx%32 == 12:
+		// evaluated in a fresh OS process: the decode is the first call that process
+		// makes, so a running total can only start from zero
+		sc.Family = "fresh"
+		sc.Media = []Medium{{ID: "m0", Records: rs}}
+		sc.Tasks = []Task{{ID: 0, Call: "Decode", In: "m0", Read: plan}}
 	case idx%2 == 1:
 		sc.Family = "again"
 		sc.Media = []Medium{{ID: "m0", Records: rs}}
@@ -410,23 +440,27 @@ func accumCheck(f *fit.File, ft byte, msgs []ModelMsg, st *Stats) []Violation {
 				sig = "always-zero"
 			}
 		}
+		var lb []uint32
+		if s.name == "Distance" {
+			var a accum
+			lb = make([]uint32, len(s.raw))
+			for i, rv := range s.raw {
+				lb[i] = a.add(rv&0xFF, 12)
+			}
+			// exact low-byte arithmetic first: with few samples it can also look like
+			// a constant shift of the right sums
+			if ok, k := constOffset(lb); sig == "" && ok && k == 0 {
+				sig = "low-byte-distance"
+			}
+		}
 		if sig == "" {
 			if ok, k := constOffset(s.want); ok && k != 0 {
 				sig = "carried-accumulator"
 			}
 		}
 		if sig == "" && s.name == "Distance" {
-			var a accum
-			lb := make([]uint32, len(s.raw))
-			for i, rv := range s.raw {
-				lb[i] = a.add(rv&0xFF, 12)
-			}
-			if ok, k := constOffset(lb); ok {
-				if k == 0 {
-					sig = "low-byte-distance"
-				} else {
-					sig = "low-byte-distance+carried-accumulator"
-				}
+			if ok, k := constOffset(lb); ok && k != 0 {
+				sig = "low-byte-distance+carried-accumulator"
 			}
 		}
 		first := 0
@@ -436,7 +470,14 @@ func accumCheck(f *fit.File, ft byte, msgs []ModelMsg, st *Stats) []Violation {
 				break
 			}
 		}
-		vs = append(vs, Violation{Property: "C18", Class: "C18/RecordMsg." + s.name, Signature: sig,
+		cls := "C18/RecordMsg." + s.name
+		if freshProcess && strings.Contains(sig, "carried-accumulator") {
+			// nothing was decoded before in this process: a running total that does not
+			// start from zero is not the listed package-level-accumulator finding
+			sig = ""
+			cls += "/first-decode-of-process"
+		}
+		vs = append(vs, Violation{Property: "C18", Class: cls, Signature: sig,
 			Detail: fmt.Sprintf("accumulated %s of record #%d (of %d with a valid source): want %d got %d", s.name, first, len(s.want), s.want[first], s.obs[first])})
 	}
 	return vs
@@ -468,6 +509,15 @@ func (p *propC18) Check(sc *Scenario, st *Stats) []Violation {
 	}
 	if sc.Family == "twin" {
 		return p.checkTwin(sc, st)
+	}
+	if sc.Family == "fresh" && !freshProcess {
+		st.Probe("first decode of a fresh process")
+		st.Evaluations++
+		cvs, died := checkInFreshProcess(sc)
+		if died != "" {
+			return []Violation{{Property: "C18", Class: "C18/fresh-process/died", Detail: died}}
+		}
+		return cvs
 	}
 	res := runScenarioSeq(sc)
 	hist := sc.Family
